@@ -3,7 +3,7 @@ CodeBuilder API for 1..3 phases, generated with definite-assignment and type
 tracking so that the written program is well defined (DESIGN.md §3.4)."""
 import numpy as np
 
-from simdag.gen.expr import (Attr, Bin, Call, Cmp, Const, IfX, Logic, Not, Pow, Sub, Var,
+from simdag.gen.expr import (Attr, Bin, Call, Lst, Cmp, Const, IfX, Logic, Not, Pow, Sub, Var,
                              expr_vars, has_call, render, text)
 
 TEMP_POOL = ["x", "y", "z", "w", "u", "v", "temp", "temp_0", "temp_1", "local_x",
@@ -37,6 +37,7 @@ FUNCS = {
     "<func>noop": ("num->", lambda x: None),
     "<func>pairlist": ("num->num,num", lambda x: [x + 1, x - 1]),      # two results as a list, not a tuple
     "<func>tup": ("num->tup", lambda x: (x + 1, x - 1)),               # one result that is itself a tuple
+    "<func>lsum": ("list,w=->num", lambda xs, w=(1, 1): w[0] * xs[0] - 2 * w[1] * xs[1]),   # container arguments
     "<func>h": ("arr->arr", lambda a: 2 * np.asarray(a)),
     "<func>rev": ("arr->arr", lambda a: np.asarray(a)[::-1].copy()),
     "<func>total": ("arr->num", lambda a: float(np.asarray(a).sum())),
@@ -528,6 +529,12 @@ class ScriptGen:
                         and t.chance(0.2, "hilen") and self.arrs(D, arr_n):
                     hi_e = Call("<builtin>len", [Var(self.pick(self.arrs(D, arr_n), "la"))])
             self.counter_range[c] = (lo_v, max(hi_v, lo_v))
+            if li >= 1 and t.chance(0.3, "triangular"):
+                # a triangular nest: the inner bound mentions the outer loop variable (bounds are evaluated when
+                # the loop is entered, inside the outer iteration)
+                outer = ctrs[-1]
+                lo_e, hi_e = Const(0), Bin("+", Var(outer), Const(1))
+                self.counter_range[c] = (0, self.counter_range[outer][1])
             loops.append((c, lo_e, hi_e))
             ctrs.append(c)
         return loops, tuple(ctrs)
@@ -644,6 +651,19 @@ class ScriptGen:
             init_e = self.g_num(D, 1, counters=("i",))
             init = ("assign", a, Var("i"), init_e, [("i", Const(0), Const(n))], self.mode())
             D.add(a)
+            if t.chance(0.3, "mirror"):
+                # a second array filled right afterwards by a loop over the same range that reads the first one
+                # at other indices (mirrored, or its fixed last element): the two loops are no one loop
+                b2 = self.new_temp(D, ("arr", n), pool=ARR_POOL, allow_existing=False)
+                if b2 is not None:
+                    src = [Sub(a, Bin("-", Const(n - 1), Var("i"))), Sub(a, Const(n - 1)),
+                           Bin("+", Sub(a, Bin("-", Const(n - 1), Var("i"))), Sub(a, Const(0)))][t.draw(3, "mirrorform")]
+                    create2 = ("call", (b2,), Call("<builtin>array", [Const(n)]), self.mode())
+                    fill2 = ("assign", b2, Var("i"), src, [("i", Const(0), Const(n))], "o")
+                    D.add(b2)
+                    te = [Var("<t>"), Bin("+", Var("<t>"), Var("<dt>"))][t.draw(2, "mirt")]
+                    return [create, init, create2, fill2,
+                            ("yield", Var(b2), self.pick(COMPONENTS, "comp"), te, self.pick(TIME_IDS, "tid"), self.mode())]
             return [create, init]
         if k == 2:
             a = self.pick(self.arrs(D), "sa")
@@ -684,7 +704,17 @@ class ScriptGen:
             return ("assign", s, None, body, loops, self.mode())
         if k == 4:
             kind = t.weighted([2, 2 if F.multi_assign else 0, 1, 1 if F.builtins and self.arrs(D) else 0,
-                               0.7 if F.multi_assign else 0], "callkind")
+                               0.7 if F.multi_assign else 0, 0.7 if F.kwargs else 0], "callkind")
+            if kind == 5:
+                # a list (and a tuple, by keyword) of expressions as arguments of a call statement
+                tgt = self.new_temp(D, "float")
+                if tgt is None:
+                    return None
+                a, b_ = self.g_num(D, 0), self.g_num(D, 0)
+                kws = [("w", Lst([self.g_num(D, 0), self.g_num(D, 0)], as_tuple=True))] if t.chance(0.5, "lkw") else []
+                D.add(tgt)
+                # (tuples: pymbolic deprecates lists inside expression graphs)
+                return ("call", (tgt,), self.ucall("<func>lsum", [Lst([a, b_], as_tuple=True)], kws), "o")
             if kind == 4:
                 # one variable bound to a result that is itself a tuple, handed on as it is
                 tv = self.new_temp(D, "tup", pool=["pr", "tup", "res"], allow_existing=False)
@@ -904,6 +934,16 @@ class ScriptGen:
                     nxt = cfg["next"][name]
                 n_ops = 1 + t.draw(self.max_ops, "nops")
                 ops += self.gen_block(D, self.max_depth, n_ops, top=True)
+                with t.span("counter_becomes_variable"):
+                    used_ctrs = sorted(_loop_counters(ops))
+                    pts = self.persistent_targets("float")
+                    if used_ctrs and pts and F.loops and "extra_temps" not in cfg and t.chance(0.2, "ctr_as_var"):
+                        # a name that served as loop variable earlier in the phase is assigned as an ordinary
+                        # variable afterwards and read (the loops before it must be over by then)
+                        c = self.pick(used_ctrs, "ctrv")
+                        pt = self.pick(pts, "ctrp")
+                        ops.append(("assign", c, None, Const(7), [], self.mode()))
+                        ops.append(("assign", pt, None, Bin("+", Var(pt), Var(c)), [], self.mode()))
                 if pi == 0 and self.unique_sites and not self.used_funcs:
                     # fault-injection workloads need at least one user-function call
                     tgt = sorted(n for n in self.types if n.startswith("<state>") and self.types[n] == "float")[0]
@@ -921,6 +961,18 @@ class ScriptGen:
         sc.shape_sig = list(self.shape)
         sc.features = [n for n in Features.NAMES if getattr(F, n)]
         return sc
+
+
+def _loop_counters(ops):
+    out = set()
+    for op in ops:
+        if op[0] == "assign" and op[4]:
+            out.update(c for c, _lo, _hi in op[4])
+        elif op[0] == "if":
+            out |= _loop_counters(op[2])
+            if op[3]:
+                out |= _loop_counters(op[3])
+    return out
 
 
 # ---------------------------------------------------------------- applying a script
@@ -1042,8 +1094,31 @@ def _apply_one(cb, op, ap, phase_name):
             raise AssertionError(k)
 
 
-def apply_script(sc):
-    from dagrt.language import CodeBuilder
+_LANG_NOASSERT = [None]
+
+
+def language_without_asserts():
+    """dagrt.language compiled the way `python -O` compiles it (assert statements, and whatever they do, are
+    gone), as a second module object.  Statements and builders made from it work with the ordinary interpreter,
+    generators and transforms."""
+    if _LANG_NOASSERT[0] is None:
+        import types
+        import dagrt.language as real
+        with open(real.__file__) as f:
+            src = f.read()
+        mod = types.ModuleType("dagrt.language")
+        mod.__file__ = real.__file__
+        mod.__package__ = "dagrt"
+        exec(compile(src, real.__file__, "exec", optimize=1), mod.__dict__)
+        _LANG_NOASSERT[0] = mod
+    return _LANG_NOASSERT[0]
+
+
+def apply_script(sc, language=None):
+    """language: the module to take CodeBuilder from (default: dagrt.language)."""
+    if language is None:
+        import dagrt.language as language
+    CodeBuilder = language.CodeBuilder
     ap = Applied()
     for ph in sc.phases:
         with CodeBuilder(ph.name) as cb:
